@@ -217,7 +217,7 @@ class Phrase(qcore.Query):
         from whoosh.query import Term, SpanNear2
 
         fieldname = self.fieldname
-        if fieldname not in searcher.schema:
+        if fieldname not in searcher.schema or not self.words:
             return matching.NullMatcher()
 
         field = searcher.schema[fieldname]
